@@ -182,6 +182,7 @@ type stats struct {
 	firstOrCreate  int64
 	noWriteChecked int64
 	nontrivial     int64
+	faultSteps     int64
 }
 
 func (a *stats) add(b *stats) {
@@ -195,6 +196,7 @@ func (a *stats) add(b *stats) {
 	a.firstOrCreate += b.firstOrCreate
 	a.noWriteChecked += b.noWriteChecked
 	a.nontrivial += b.nontrivial
+	a.faultSteps += b.faultSteps
 }
 
 func bump(m *sync.Map, k string) {
@@ -284,7 +286,7 @@ func replay(run *mc.Run, path string) {
 		w := newWorker()
 		fail, _ := w.runUnique(uc)
 		fmt.Println(uc.String())
-		fmt.Println("table after: " + w.dumpCodes())
+		fmt.Println("table after: " + w.dumpCodes(uc.Partial))
 		if fail != "" {
 			fmt.Println("VERDICT: still violates: " + fail)
 			run.Violation(nil, fail, uc)
@@ -351,7 +353,7 @@ func main() {
 	}
 
 	st := &stats{}
-	samples := &mc.Samples{N: 16}
+	samples := &mc.Samples{N: 24}
 	var sampled sync.Map // one sample per step class
 	totalStates, expanded := 0, 0
 	exhaustive := true
@@ -363,7 +365,7 @@ func main() {
 		workers[i] = newWorker()
 	}
 
-	uniqueN, uniqueConflicts := uniqueEnumeration(run, workers[0])
+	uniqueN, uniqueConflicts, partialConflicts, partialHidden := uniqueEnumeration(run, workers[0])
 
 	var graphs [2]*graph
 	var frontiers [2][]string
@@ -423,7 +425,7 @@ func main() {
 					m, key := items[n].m, items[n].key
 					g := graphs[m]
 					ops := opsAt[m]
-					expandState(run, w, g, m, key, ops, depth, maxDepth, succ[wi][m], samples, &sampled)
+					expandState(run, w, g, m, key, ops, depth, maxDepth, depth < wrapDepth, succ[wi][m], samples, &sampled)
 					expandedInc()
 				}
 			}(wi)
@@ -484,12 +486,18 @@ func main() {
 		"batch-upsert-updateall-conflict",
 		"found", "found-first-of-many", "found-assign-update", "found-first-of-many-assign-update",
 		"notfound", "notfound-soft-deleted-match", "create-key-collides-soft-deleted", "softdel-live",
+		"upsert-where-true-conflict", "upsert-where-false-conflict",
+		"fault-found", "fault-found-first-of-many", "fault-found-assign-update", "fault-notfound",
+		"fault-save-absent-key", "fault-save-existing-key", "fault-upsert-updateall-conflict",
 	}
 	if run.NumViolations() == 0 && exhaustive {
 		for _, f := range floor {
 			if classes[f] == 0 {
 				run.HarnessError("vacuous: no step of class %q was executed", f)
 			}
+		}
+		if partialConflicts == 0 || partialHidden == 0 {
+			run.HarnessError("vacuous: partial-index target conflicts=%d hidden=%d", partialConflicts, partialHidden)
 		}
 		if uniqueConflicts == 0 {
 			run.HarnessError("vacuous: no conflict on the unique-column target")
@@ -501,35 +509,39 @@ func main() {
 
 	run.Assume("SQLite dialect with RETURNING; tables created by the harness with INTEGER PRIMARY KEY (no AUTOINCREMENT) so that the next key is a function of the table contents")
 	run.Assume("created_at / updated_at / the time stored in deleted_at are masked (the property sets tracked timestamps aside); deleted_at is observed as NULL / NOT NULL")
-	run.Assume("RowsAffected is compared except for a batch Create with OnConflict{DoNothing} and caller-supplied keys (ambiguous); FirstOrCreate with a key taken from the conditions that collides with a soft-deleted row is expected to fail and leave the table unchanged")
-	run.Assume("outside the alphabet: OnConflict with an empty DoUpdates, Where/TargetWhere/OnConstraint in OnConflict, Attrs overlapping the condition columns, all-zero struct in Assign, hooks, associations, Select/Omit")
+	run.Assume("RowsAffected is compared except for a batch Create with OnConflict{DoNothing} and caller-supplied keys (ambiguous); the in-memory elements of a batch Create whose OnConflict.Where skipped rows are not compared (table and RowsAffected are); FirstOrCreate with a key taken from the conditions that collides with a soft-deleted row is expected to fail and leave the table unchanged")
+	run.Assume("single-fault variants: a fault is an injected error on one statement (exec/query) of the operation, executed for unwrapped operations on the states that also get the Session/WithContext chains; begin/commit faults are left to C04/C05")
+	run.Assume("outside the alphabet: OnConflict with an empty DoUpdates, OnConstraint, Where on DoNothing (not valid SQL), Attrs overlapping the condition columns, all-zero struct in Assign, hooks, associations, Select/Omit")
 	run.Assume("the re-seeded state equals the state reached by the real history up to the masked timestamps; checked once per expanded state by replaying the history on the implementation")
 	run.Finish(map[string]interface{}{
-		"states":                                 totalStates,
-		"states_expanded":                        expanded,
-		"transitions":                            st.transitions,
-		"traces_validated_against_impl":          st.transitions,
-		"evaluations":                            st.executions,
-		"distinct_nontrivial":                    st.nontrivial,
-		"distinct_outcomes":                      outcomes.Len(),
-		"rule":                                   fmt.Sprintf("BFS from the empty table over all operation sequences of length <= %d, per model (plain, soft-delete twin); a state is the table dump in key order with timestamps masked; every operation of the alphabet (Save x2 of keys 0..3, Create+OnConflict{DoNothing,UpdateAll,DoUpdates over every non-empty subset of name/age/email, constant assignment} on keys 1..3 and two-row batches, soft delete, FirstOrInit/FirstOrCreate with 6 conditions x struct/map x Where/inline, Attrs and Assign in struct/map/key-value form, Session(&Session{}) or WithContext at every position of the chain) is executed on the implementation from every state of depth < %d and compared with the reference map (returned record, RowsAffected, table, driver log); non-trivial = distinct (state, operation) whose step met existing data (key collision, match, invisible soft-deleted match) or built a record from conditions/Attrs/Assign", maxDepth, maxDepth),
-		"samples":                                samples.List(),
-		"exhaustive":                             exhaustive,
-		"max_sequence_length":                    maxDepth,
-		"alphabet_size":                          alphaSize,
-		"states_per_depth":                       perDepth,
-		"save_idempotence_checks":                st.saveSecond,
-		"histories_replayed_on_impl":             st.pathReplayed,
-		"first_or_init_steps":                    st.firstOrInit,
-		"first_or_init_no_write_verified":        st.noWriteChecked,
-		"first_or_create_steps":                  st.firstOrCreate,
-		"session_withcontext_steps":              st.wrapped,
-		"session_withcontext_after_attrs_assign": st.wrappedAfter,
-		"session_withcontext_positions":          wrapPos,
-		"step_classes":                           classes,
-		"unique_column_target_cases":             uniqueN,
-		"unique_column_target_conflicts":         uniqueConflicts,
-		"violations_by_tag_and_kind":             dumpCounts(&violByTag),
+		"states":                                  totalStates,
+		"states_expanded":                         expanded,
+		"transitions":                             st.transitions,
+		"traces_validated_against_impl":           st.transitions,
+		"evaluations":                             st.executions,
+		"distinct_nontrivial":                     st.nontrivial,
+		"distinct_outcomes":                       outcomes.Len(),
+		"rule":                                    fmt.Sprintf("BFS from the empty table over all operation sequences of length <= %d, per model (plain, soft-delete twin); a state is the table dump in key order with timestamps masked; every operation of the alphabet (Save x2 of keys 0..3, Create+OnConflict{DoNothing,UpdateAll,DoUpdates over every non-empty subset of name/age/email, constant assignment, UpdateAll and DoUpdates with a Where on excluded vs stored age} on keys 1..3 and two-row batches, soft delete, FirstOrInit/FirstOrCreate with 6 conditions x struct/map x Where/inline, Attrs and Assign in struct/map/key-value form, Session(&Session{}) or WithContext at every position of the chain) is executed on the implementation from every state of depth < %d (plus, for the states that also get the Session/WithContext chains, every unwrapped operation once more per statement it sends with that statement failing in the driver: error required, table unchanged) and compared with the reference map (returned record, RowsAffected, table, driver log); non-trivial = distinct (state, operation) whose step met existing data (key collision, match, invisible soft-deleted match) or built a record from conditions/Attrs/Assign", maxDepth, maxDepth),
+		"samples":                                 samples.List(),
+		"exhaustive":                              exhaustive,
+		"max_sequence_length":                     maxDepth,
+		"alphabet_size":                           alphaSize,
+		"states_per_depth":                        perDepth,
+		"single_fault_steps":                      st.faultSteps,
+		"save_idempotence_checks":                 st.saveSecond,
+		"histories_replayed_on_impl":              st.pathReplayed,
+		"first_or_init_steps":                     st.firstOrInit,
+		"first_or_init_no_write_verified":         st.noWriteChecked,
+		"first_or_create_steps":                   st.firstOrCreate,
+		"session_withcontext_steps":               st.wrapped,
+		"session_withcontext_after_attrs_assign":  st.wrappedAfter,
+		"session_withcontext_positions":           wrapPos,
+		"step_classes":                            classes,
+		"unique_column_target_cases":              uniqueN,
+		"unique_column_target_conflicts":          uniqueConflicts,
+		"partial_index_target_conflicts":          partialConflicts,
+		"partial_index_same_code_as_soft_deleted": partialHidden,
+		"violations_by_tag_and_kind":              dumpCounts(&violByTag),
 	})
 }
 
@@ -554,7 +566,7 @@ func labels(m int, ops []Op) []string {
 
 // expandState executes every operation of ops on one state (reached once
 // through its real history, then re-seeded) and collects the successors.
-func expandState(run *mc.Run, w *worker, g *graph, m int, key string, ops []Op, depth, maxDepth int, succ map[string]*node, samples *mc.Samples, sampledP *sync.Map) {
+func expandState(run *mc.Run, w *worker, g *graph, m int, key string, ops []Op, depth, maxDepth int, faults bool, succ map[string]*node, samples *mc.Samples, sampledP *sync.Map) {
 	nd := g.nodes[key]
 	path := g.path(key)
 	// reach the state through the real history once
@@ -618,6 +630,26 @@ func expandState(run *mc.Run, w *worker, g *graph, m int, key string, ops []Op, 
 			report(run, w, Case{Model: m, Path: path, State: nd.st, Op: op}, ex, out, fail)
 			// do not follow a transition the reference rejects
 			continue
+		}
+		if faults && op.Wrap == 0 {
+			// single-fault variants: the k-th statement of the operation fails
+			for k := 1; k <= out.Stmts; k++ {
+				fop := op
+				fop.Fault = k
+				fout, fex, ffail := w.step(m, nd.st, fop)
+				ws.transitions++
+				ws.executions++
+				ws.faultSteps++
+				ws.nontrivial++
+				w.classes[fex.Class]++
+				w.outcomes[fmt.Sprintf("%s|%d|%v|%v", fex.Class, fout.RA, fout.Recs, fout.Err != "")] = struct{}{}
+				if len(path) >= 1 && firstTime(sampledP, fex.Class) {
+					samples.Add(map[string]interface{}{"model": modelName[m], "history": labels(m, path), "state": key, "op": fop.Label(m), "class": fex.Class, "error": fout.Err, "after": fout.After.Key()})
+				}
+				if ffail != "" {
+					report(run, w, Case{Model: m, Path: path, State: nd.st, Op: fop}, fex, fout, ffail)
+				}
+			}
 		}
 		fs := final(out)
 		fk := fs.Key()
